@@ -115,6 +115,26 @@ class Exec:
         if op == "close":
             self.closed = True
             return s.api(st[1], "close", st[2])
+        if op == "inject":
+            # ["inject", src, packet type, payload hex, tag]: a correctly protected packet from a key-holding peer
+            from . import hostile
+            _, src, ptype, hexpayload, tag = st
+            dst = other(src)
+            if src not in s.eps or dst not in s.eps or s.terminated[dst]:
+                return False
+            return hostile.inject(s, src, ptype, bytes.fromhex(hexpayload), tag)
+        if op == "corrupt":
+            # deliver a copy of the i-th datagram in flight with one byte altered; the original stays in flight
+            if not s.net:
+                return False
+            i = st[1] % len(s.net)
+            raw = bytearray(s.net[i]["data"])
+            pos = st[2] % len(raw)
+            raw[pos] ^= 0x20
+            s.deliver(i, data=bytes(raw), keep=True, note="corrupt")
+            return True
+        if op == "blackout":
+            return s.blackout()
         if op == "rebind":
             if "s" not in s.eps or not s.eps["c"]._handshake_confirmed:
                 return False
@@ -161,6 +181,8 @@ def run(A, cfg, script, seed=0, hs_adv=False, fair=True):
         for st in script:
             ex.step(st)
         s.quiescent_end = s.run_fair() if fair else None
+        s.run_closing()
+        s.final_poll()
         s.ev("end", quiescent=bool(s.quiescent_end))
         s.executor = ex
     finally:
@@ -202,10 +224,18 @@ def random_script(rnd, n_steps, profile):
             out.append(["tick", rnd.choice([1, 500, 5000, 30000, 200000])])
         elif k == "close":
             out.append(["close", rnd.choice("cs"), rnd.choice([0, 5, 0x100])])
+        elif k == "blackout":
+            out.append(["blackout"])
+        elif k == "corrupt":
+            out.append(["corrupt", rnd.randrange(8), rnd.choice([30, 60, 200, 700, 1150])])
     return out
 
 
 PROFILES = {
+    "closing": {"write": 4, "deliver": 6, "drop": 1, "dup": 0.5, "timer": 2, "late": 0.7, "tick": 1, "ping": 0.5,
+                "close": 0.8, "reset": 0.3, "keyupdate": 0.3, "rebind": 0.2, "corrupt": 0.5},
+    "ptoclose": {"write": 3, "drop": 5, "timer": 4, "deliver": 1, "close": 0.6, "corrupt": 0.3},
+    "blackout": {"write": 4, "deliver": 6, "drop": 1, "timer": 2, "tick": 1, "blackout": 0.5},
     "benign":  {"write": 5, "deliver": 8, "ping": 1, "tick": 1, "timer": 1},
     "lossy":   {"write": 5, "deliver": 6, "drop": 3, "timer": 3, "tick": 1, "ping": 1, "reset": 0.5, "stop": 0.3},
     "dup":     {"write": 5, "deliver": 6, "dup": 3, "swap": 2, "timer": 1, "tick": 1, "reset": 0.5},
